@@ -186,6 +186,11 @@ class NeedSplit(Exception):
         self.cond = cond
 
 
+class Infeasible(Exception):
+    """Raised when an evaluation finds that the path condition is contradictory (every entry of a table is excluded
+    by the guards although the look-up is known to succeed): exec_stmt ends the path without successors."""
+
+
 class Unsupported(Exception):
     pass
 
@@ -577,6 +582,8 @@ class Interp:
                 if hoisted is not None:
                     return self.exec_block(hoisted, st, ctx)
             return m(node, st, ctx)
+        except Infeasible:
+            return []
         except NeedSplit as ns:
             if snap is None or getattr(self, "_split_depth", 0) >= 12 or decided_by(snap.pc, ns.cond) is not None:
                 raise AnalysisError(f"value-dependent selection at {ctx.loc(node)} needs a case split this statement is not prepared for")
@@ -2862,6 +2869,11 @@ class Interp:
         if t == "lookup" and fv[1] and all(isinstance(f, tuple) and f and f[0] in ("lambda", "func", "bound", "partialobj") for _, f in fv[1]):
             # call of a callable chosen from a table by a symbolic key: the table of the results; what an entry may
             # raise is raised only when the key selects it
+            live_ = [(k, f) for k, f in fv[1] if decided_by(st.pc, mkcmp("==", fv[2], k)) is not False]
+            if not live_:
+                raise Infeasible()          # the table is only consulted where the key is one of its keys
+            if len(live_) < len(fv[1]):
+                return self.call(("lookup", tuple(live_), fv[2]) if len(live_) > 1 else live_[0][1], args, kwargs, st, ctx, node, awaited)
             alts = []
             n_ev = len(st.events)
             for k, f in fv[1]:
@@ -3096,6 +3108,18 @@ class Interp:
                 rb = c(d_) if d_ is not None else rb
             if is_c(ra) and is_c(rb):
                 return c(ra[1]) if ra[1] == rb[1] else (a[1] if ra[1] else neg(a[1]))
+        if name in ("is", "is not", "==", "!=") and isinstance(a, tuple) and len(a) == 3 and a[0] == "lookup" and a[1] and (is_c(b) or b[0] == "enum"):
+            # a value read from a table compared with a constant: decided when every entry decides it the same way
+            rs_ = set()
+            for _k, v_ in a[1]:
+                if isinstance(v_, tuple) and v_ and v_[0] in ("func", "bound", "lambda", "class", "partialobj"):
+                    rs_.add(False)            # a function / class object is not None and equals no constant
+                else:
+                    r_ = self.compare(ast.Eq(), v_, b, st, ctx, node)
+                    rs_.add(r_[1] if is_c(r_) and isinstance(r_[1], bool) else None)
+            if len(rs_) == 1 and None not in rs_:
+                eq_ = rs_.pop()
+                return c(eq_ if name in ("is", "==") else not eq_)
         a2, b2 = self.canon_cmp_operand(a, st), self.canon_cmp_operand(b, st)
         # a raw byte string compared with literal bytes: bring the literal to the raw (hex nibble) form too
         if T.is_seq(a) and T.is_seq(a2) and a[1] == "raw" and is_c(b) and isinstance(b[1], bytes):
@@ -3360,7 +3384,17 @@ class Interp:
         t = v[0]
         if t == "c":
             return c(bool(v[1]))
-        if t in ("enum", "func", "class", "bound", "lambda", "ext", "module", "partialobj", "exc"):
+        if t == "enum":
+            ci_e = self.prog.cls(v[1].cls)
+            m_b = ci_e.find_method("__bool__")
+            if m_b is not None:
+                # an enum that defines its own truth value: what __bool__ returns for this member
+                r_ = self.call_user_nested(("bound", v, m_b), [], {}, st, Ctx(None, ci_e.module, 1), m_b.node)
+                return self.truth(r_, st) if not is_top(r_) else ("truthy", v)
+            if ci_e.find_method("__len__") is not None:
+                return ("truthy", v)
+            return c(True)
+        if t in ("func", "class", "bound", "lambda", "ext", "module", "partialobj", "exc"):
             return c(True)
         if t == "tuple":
             return c(len(v[1]) > 0)
@@ -3404,9 +3438,17 @@ class Interp:
                     return disj([v[1], b])
             return ite(v[1], a, b)
         if t == "sym" and isinstance(v[2], tuple) and v[2] and v[2][0] == "enum":
-            return c(True)
-        if t == "lookup" and all(x[0] == "enum" for _, x in v[1]):
-            return c(True)
+            ci_e = self.prog.cls(v[2][1])
+            if ci_e.find_method("__bool__") is None and ci_e.find_method("__len__") is None:
+                return c(True)
+            return ("truthy", v)
+        if t == "lookup" and v[1] and all(x[0] in ("enum", "func", "bound", "lambda", "class", "partialobj") for _, x in v[1]):
+            ts_ = [self.truth(x, st) for _, x in v[1]]
+            if all(is_c(x) and x[1] is True for x in ts_):
+                return c(True)
+            if all(is_c(x) for x in ts_):
+                return ("lookup", tuple((k, x) for (k, _), x in zip(v[1], ts_)), v[2]) if len({x[1] for x in ts_}) > 1 else ts_[0]
+            return ("truthy", v)
         if t == "sym" and isinstance(v[2], tuple) and v[2] and v[2][0] == "extobj":
             return c(True)  # library objects (transports, streams) define no __bool__/__len__
         if t == "uint":
@@ -3660,6 +3702,14 @@ def disj(parts: List[Term]) -> Term:
 def ite(cond: Term, a: Term, b: Term) -> Term:
     if is_c(cond):
         return a if cond[1] else b
+    # a choice nested under the same condition is already decided there
+    for _ in range(3):
+        if isinstance(a, tuple) and len(a) == 4 and a[0] == "ite" and (a[1] == cond or a[1] == neg(cond)):
+            a = a[2] if a[1] == cond else a[3]
+        elif isinstance(b, tuple) and len(b) == 4 and b[0] == "ite" and (b[1] == cond or b[1] == neg(cond)):
+            b = b[3] if b[1] == cond else b[2]
+        else:
+            break
     if a == b:
         return a
     # canonical polarity: the condition is kept in its positive form
